@@ -464,6 +464,17 @@ def run (cfg : Cfg) : Heap → List Op → Option Heap
     | none => none
     | some r => run cfg r.h ops
 
+/-- run a history and collect all stores in program order -/
+def runE (cfg : Cfg) : Heap → List Op → Option (Heap × List Ev)
+  | h, [] => some (h, [])
+  | h, op :: ops =>
+    match step cfg h op with
+    | none => none
+    | some r =>
+      match runE cfg r.h ops with
+      | none => none
+      | some x => some (x.1, r.evs ++ x.2)
+
 /-! pool histories -/
 
 inductive POp where
